@@ -33,7 +33,7 @@ pub fn cases_for_leg(ctx: &Ctx, leg: &str) -> u64 {
     match leg {
         "asan" => ctx.cases(0, 400_000),
         "valgrind" => ctx.cases(0, 16_000),
-        "miri" => ctx.cases(0, 192),
+        "miri" => ctx.cases(0, 192).max(96),
         _ => ctx.cases(300_000, 6_000_000),
     }
 }
@@ -750,6 +750,42 @@ pub fn miri_main(args: &[String]) {
         .collect();
     let mut l = Local::default();
     let alphabet: Vec<char> = MUT_ALPHABET.chars().collect();
+    // ---- deterministic corpus first: every (reference kind x decoded disclosure shape x selector
+    // kind) combination that reaches an indexing site of the holder; 96 inputs
+    let shapes: Vec<Value> = vec![json!([]), json!(["s"]), json!(["s", "k"]), json!(["s", "k", "v"]), json!(["s", "k", "v", "w"]), json!("str"), json!({"a": 1}), json!(null)];
+    let selectors: Vec<Value> = vec![json!(true), json!({"x": true}), json!([true]), json!(false), json!(null), json!({"...": true})];
+    let mut idx = 0u64;
+    for (ki, kind) in ["_sd", "..."].iter().enumerate() {
+        for shape in &shapes {
+            for selv in &selectors {
+                idx += 1;
+                if idx % nshards != shard {
+                    continue;
+                }
+                api::begin_case();
+                let d = b64e(shape.to_string().as_bytes());
+                let dig = model::digest_of(&d);
+                let (payload, sel) = if *kind == "_sd" {
+                    (json!({"iss": "i", "o": {"_sd": [dig], "vis": 1}, "_sd": [dig.replace('A', "B")]}), json!({"o": {"k": selv, "vis": true}, "k": selv}))
+                } else {
+                    (json!({"iss": "i", "arr": [{"...": dig}, 1, [{"...": dig.replace('A', "B")}]]}), json!({"arr": [selv, true, [selv]]}))
+                };
+                let jwt = format!("{}.{}.AAAA", b64e(b"{\"alg\":\"ES256\"}"), b64e(payload.to_string().as_bytes()));
+                let fmt = if (idx + ki as u64) % 2 == 0 { Fmt::Compact } else { Fmt::Json };
+                let text = Parts { jwt, disclosures: vec![d], kb: None }.encode(fmt, 0).unwrap_or_default();
+                l.count("class.corpus");
+                let mut p = Probe { case: 1_000_000 + idx, class: "corpus", l: &mut l };
+                let input = || json!({"format": fmt.name(), "payload": payload, "disclosure": shape, "selection": sel});
+                let h = api::holder_new(&text, fmt);
+                p.judge("SDJWTHolder::new", &h, &input);
+                if let Outcome::Ok(mut h) = h {
+                    let o = api::present(&mut h, &sel, None);
+                    p.judge("create_presentation", &o, &input);
+                    p.l.distinct(crate::rng::mix(idx ^ 0xC0A905));
+                }
+            }
+        }
+    }
     for case in 0..cases {
         if case % nshards != shard {
             continue;
@@ -799,7 +835,10 @@ pub fn miri_main(args: &[String]) {
             "crafted-structures" => {
                 // ill-formed payload / disclosure structures from the C08 builder, unsigned (the
                 // holder does not verify): short and long disclosures, wrong container kinds, ...
-                let force = c08::DEVIATIONS[(case / 5) as usize % c08::DEVIATIONS.len()];
+                // under the interpreter every case is expensive: concentrate on the deviations
+                // that change what the holder indexes (arity / shape of referenced disclosures)
+                let focus = ["elem-arity", "member-arity", "elem-nonarray", "member-nonarray", "name-nonstring", "compose", "placeholder-nonstring", "sd-nonstring-entry"];
+                let force = focus[(case / 5) as usize % focus.len()];
                 let (mut payload, discs, _) = c08::build(&mut r, force, 30);
                 payload["iss"] = json!("i");
                 let jwt = format!("{}.{}.AAAA", b64e(b"{\"alg\":\"ES256\"}"), b64e(payload.to_string().as_bytes()));
